@@ -113,7 +113,7 @@ func cmdCheck(args []string) int {
 	start := time.Now()
 
 	configs := []prog.Config{{GOOS: "linux", GOARCH: "amd64"}}
-	depth := 3
+	depth := 4
 	if *tier == "thorough" {
 		configs = thoroughConfigs
 		depth = 6
@@ -572,7 +572,7 @@ func cmdExplain(args []string) int {
 	if rs == nil {
 		return 2
 	}
-	res, _, err := runOne(rs, "/repo", prog.Config{GOOS: "linux", GOARCH: "amd64"}, "quick", 3)
+	res, _, err := runOne(rs, "/repo", prog.Config{GOOS: "linux", GOARCH: "amd64"}, "quick", 4)
 	if err != nil {
 		fmt.Println("re-run failed:", err)
 		return 1
@@ -620,7 +620,7 @@ func cmdScan(args []string) int {
 				}
 			}()
 			res := core.NewResult(rs.Property, cfg.String())
-			ctx := &rules.Ctx{P: p, R: res, Tier: "quick", Depth: 3}
+			ctx := &rules.Ctx{P: p, R: res, Tier: "quick", Depth: 4}
 			rs.Run(ctx)
 			fired := map[string]bool{}
 			for _, o := range res.Obls {
